@@ -215,12 +215,17 @@ def elements(F, res, pol):
         if k not in seen_k and not any(('element/parse/kind/' + k) in v['key'] for v in res.violations):
             res.bad('element/parse/kind/%s/missing' % k, 'parse_elements has no successful path for %s segments' % k)
     # emit
-    _, ews = worlds_of(F, '<module::elements::ModuleElements as emit::Emit>::emit', [sym('self'), sym('cx')], pol, key='seg')
+    EM = '<module::elements::ModuleElements as emit::Emit>::emit'
+    helper = ref_func_helper(F, EM)
+    epol = fl.policy(no_inline=OPAQUE + ((helper,) if helper else ()), extra_effects=[re.escape(helper) + '$'] if helper else ())
+    _, ews = worlds_of(F, EM, [sym('self'), sym('cx')], epol, key='seg-elem-emit')
+    ref_func_declarations(F, res, ews, helper)
     seen = set()
     for w in ews:
         if w.outcome != 'return':
             continue
-        calls = section_calls(w)
+        # the per-segment calls (the loop over the arena); what follows the loop is ref_func_declarations' business
+        calls = [c for c in section_calls(w) if c['loops']]
         if not calls:
             continue
         rk = ri = None
@@ -292,6 +297,177 @@ def elements(F, res, pol):
         for i in ('Functions', 'Expressions'):
             if (k, i) not in seen and not any(('element/emit/%s/%s' % (k, i)) in v['key'] for v in res.violations):
                 res.bad('element/emit/%s/%s/missing' % (k, i), 'ModuleElements::emit has no path for %s segments with %s items' % (k, i))
+
+
+def ref_func_helper(F, em):
+    """the function, written next to the element emitter and called from it, that walks the function bodies (found by what
+    it does: it runs the instruction traversal), or None"""
+    from heval import file_of, norm_path
+    from mirinline import callee_of
+    home = file_of(F, em)
+    seen, todo = set(), [em]
+    while todo:
+        q = todo.pop()
+        if q in seen or q not in F.mir:
+            continue
+        seen.add(q)
+        todo.extend(x for x in F.mir if x.startswith(q + '::{closure') and x not in seen)
+        for b in F.mir[q]['blocks']:
+            t = b['term']
+            if t.get('t') != 'Call':
+                continue
+            k = (t.get('func') or {}).get('k') or {}
+            if q != em and '{closure' not in q and re.search(r'traversals::dfs_in_order$', norm_path(k.get('resolved') or k.get('fn') or '')):
+                return q
+            c = callee_of(t, F)
+            if c and c in F.mir and file_of(F, c) == home and c not in seen:
+                todo.append(c)
+    return None
+
+
+DECLARING = (  # where a function index may occur so that `ref.func` on it validates: (arena of Module, path below the item)
+    ('exports', r'^\.item\.Function\.0$'),
+    ('globals', r'^\.kind\.Local\.0\.RefFunc\.0$'),
+    ('elements', r'^\.items\.Functions\.0$'),            # element of that list
+    ('elements', r'^\.items\.Expressions\.1$'),          # element of that list, .RefFunc.0
+)
+
+
+def ref_func_declarations(F, res, ews, helper):
+    """`ref.func f` inside a function body validates only if f occurs somewhere outside the bodies: an export, an element
+    segment, a global initialiser.  The GC removes unused segments, tables and globals without looking at that, and
+    the builder API lets anybody write `ref.func`, so the element emitter has to declare what nothing else declares:
+
+     (d1) after the per-segment loop it appends one `declared(Functions(..))` segment listing the emitted indices of the
+          helper's result, exactly when that result is non-empty, and an empty arena alone does not skip the section;
+     (d2) the helper collects the operand of every `ref.func` of every local function's emitted code (the traversal from the
+          entry block) and drops a function only for an occurrence that really declares it (export item, global
+          initialiser `ref.func`, element items of either form)."""
+    key = 'element/emit/ref-func-declarations'
+    if helper is None:
+        res.bad(key + '/missing', 'ModuleElements::emit never looks at the `ref.func` instructions of the function bodies: a function '
+                'whose only declaring occurrence (element segment, global, export) was removed is referenced by an undeclared '
+                '`ref.func`, and the emitted module does not validate')
+        return
+    hs = helper.split('::')[-1]
+    bad = None
+    n_decl = n_none = 0
+    for w in ews:
+        if w.outcome != 'return':
+            continue
+        post = [c for c in section_calls(w) if not c['loops']]
+        emp = None
+        for k, v in w.assumptions:
+            if isinstance(k, tuple) and k and k[0] == 'atom' and isinstance(v, bool):
+                t, val = k[1], v
+                while t[0] == 'un' and t[1] == 'Not':
+                    t, val = t[2], not val
+                st = show(t)
+                if st.startswith('is_empty(') and hs + '(' in st:
+                    emp = val
+        sect = [e for e in w.trace if e['kind'] == 'call' and e['callee'].endswith('wasm_encoder::Module::section')]
+        if not sect and emp is not True:
+            bad = 'the element section is skipped without knowing that no function needs a declaration (e.g. whenever the arena is empty)'
+            continue
+        if emp is False:
+            if len(post) != 1 or post[0]['callee'].split('::')[-1] != 'declared':
+                bad = 'functions need a declaration but %d segment(s) are appended after the loop' % len(post)
+                continue
+            els = post[0]['args'][-1]
+            okk = els[0] == 'ctor' and els[2] == 'Functions'
+            if okk:
+                sq = cfield(els, '0')
+                okk = sq[0] == 'seq' and sq[1][0] == 'call' and sq[1][1] == helper and canon(sq[2]) == ('idx', 'function', ('elem', canon(sq[1])))
+            if not okk:
+                bad = 'the declaring segment does not list the emitted index of every function the helper returned: %s' % show(els)[:100]
+                continue
+            n_decl += 1
+        else:
+            if post:
+                bad = 'a segment is appended after the loop although nothing needs a declaration'
+                continue
+            n_none += 1
+    if bad:
+        res.bad(key, 'ModuleElements::emit: ' + bad)
+    elif n_decl and n_none:
+        res.ok(key, {'declared_segment': 'declared(Functions(indices of %s(module))) iff non-empty' % hs})
+    else:
+        res.bad(key + '/missing', 'ModuleElements::emit has no path that declares the functions only referenced by `ref.func` in bodies '
+                '(declaring worlds: %d, plain worlds: %d)' % (n_decl, n_none))
+    # (d2)
+    pol2 = Policy(effects=[r'HashSet::(insert|remove)$', r'dfs_in_order$'], inline=lambda q: 'dfs_in_order' not in q)
+    hws = Evaluator(F, pol2).run_fn(helper, [sym('module')])
+    bad = None
+    seen_decl = set()
+    walked = hooked = False
+    from adtwalk import peel, show_path
+    for w in hws:
+        for e in w.trace:
+            if e['kind'] != 'call':
+                continue
+            last = e['callee'].split('::')[-1]
+            if last == 'dfs_in_order':
+                fn_, start_ = show(e['args'][1]), show(e['args'][2])
+                from_entry = start_ in ('entry_block(%s)' % fn_, fn_ + '.builder.entry!')
+                if from_entry and e['loops'] and 'module.funcs' in show(e['loops'][0]):
+                    walked = True
+                else:
+                    bad = 'the bodies are not walked from each local function\'s entry block'
+            if last == 'remove':
+                a = e['args'][1]
+                st = show(a)
+                def split_elem(x):
+                    """'elem(<inner>)<rest>' -> (inner, rest)"""
+                    if not x.startswith('elem('):
+                        return None
+                    d, i = 0, 4
+                    for i in range(4, len(x)):
+                        d += x[i] == '('
+                        d -= x[i] == ')'
+                        if d == 0:
+                            break
+                    return x[5:i], x[i + 1:]
+                hit = None
+                sp = split_elem(st)
+                tail = ''
+                if sp and sp[0].startswith('elem('):
+                    tail = sp[1]
+                    sp = split_elem(sp[0])
+                if sp:
+                    m = re.match(r'^iter\(module\.(\w+)', sp[0])
+                    if m and sp[1].startswith('.1'):
+                        arena, path = m.group(1), sp[1][2:]
+                        for ar, rx in DECLARING:
+                            if ar == arena and re.match(rx, path) and tail in ('', '.RefFunc.0'):
+                                if path.endswith('Expressions.1') == (tail == '.RefFunc.0') and \
+                                        ((arena == 'elements') == st.startswith('elem(elem(')):
+                                    hit = (ar, path)
+                if hit is None:
+                    bad = 'a function is treated as declared because of %s, which is not a declaring occurrence' % st[:90]
+                else:
+                    seen_decl.add(hit)
+    # the visitor hook
+    hook = [q for q in F.hir if q.startswith('<' + helper + '::') and q.endswith('::visit_ref_func')] + \
+           [q for q in F.hir if helper.rsplit('::', 1)[0] in q and 'Visitor' in q and helper.split('::')[-1] in q and q.endswith('::visit_ref_func')]
+    for q in hook[:1]:
+        try:
+            kw = Evaluator(F, Policy(effects=[r'HashSet::insert$'], inline=lambda x: True)).run_fn(q, [sym('self'), sym('instr')])
+            ins = [e for w in kw for e in w.trace if e['kind'] == 'call' and e['callee'].endswith('insert')]
+            hooked = bool(ins) and all(show(e['args'][1]) in ('instr.func', '*instr.func') for e in ins) and \
+                all(any(e['callee'].endswith('insert') for e in w.trace if e['kind'] == 'call') for w in kw if w.outcome == 'return')
+        except EvalError:
+            hooked = False
+    want = {('exports', '.item.Function.0'), ('globals', '.kind.Local.0.RefFunc.0'), ('elements', '.items.Functions.0'),
+            ('elements', '.items.Expressions.1')}
+    if bad:
+        res.bad(key + '/set', '%s: %s' % (hs, bad))
+    elif not walked or not hooked:
+        res.bad(key + '/set', '%s does not collect the operand of every `ref.func` (bodies walked: %s, hook records instr.func: %s)'
+                % (hs, walked, hooked))
+    else:
+        res.ok(key + '/set', {'collected': 'ref.func operands of every local function, from the entry block',
+                              'dropped_when_declared_by': sorted(a + p for a, p in seen_decl),
+                              'not_consulted': sorted(a + p for a, p in want - seen_decl)})
 
 
 # ------------------------------------------------------------------ start
